@@ -88,6 +88,9 @@ pub fn child(root: &str, tier: &str) -> i32 {
     // VERIF_C08_Z > 3: "wide" mode - zones of that many rows in which one value sits at chosen row positions only
     let z: usize = std::env::var("VERIF_C08_Z").ok().and_then(|s| s.parse().ok()).unwrap_or(3);
     let wide = z > 3;
+    // VERIF_C08_DENSE: two zones of z rows whose integer fields hold the row number (every value of a
+    // 256-aligned block inside one zone: trie nodes with the full fan-out); structure part only
+    let dense = std::env::var("VERIF_C08_DENSE").is_ok();
     let cfg = SysConfig { event_per_zone: z, fill_factor: 100_000, ..Default::default() };
     let cfg_path = cfg.write(&root);
     unsafe { std::env::set_var("SNELDB_CONFIG", &cfg_path) };
@@ -101,7 +104,9 @@ pub fn child(root: &str, tier: &str) -> i32 {
     let mut segs: Vec<(String, Vec<Vec<usize>>)> = Vec::new();
     let big: Vec<Vec<usize>> = all3.clone();
     let _ = tier;
-    if !wide {
+    if dense {
+        segs.push((format!("dense-{z}"), vec![(0..z).collect(), (z..2 * z).collect()]));
+    } else if !wide {
         segs.push(("all-multisets".into(), big));
         segs.push(("one-zone".into(), vec![vec![0, 5, 13]]));
         segs.push(("two-zones+partial".into(), vec![vec![1, 1, 2], vec![3, 9, 9], vec![4]]));
@@ -152,6 +157,10 @@ pub fn child(root: &str, tier: &str) -> i32 {
                     for (field, _, vals) in &alph {
                         payload.insert(field.to_string(), ScalarValue::from(vals[idx % vals.len()].clone()));
                     }
+                    if dense {
+                        payload.insert("i".to_string(), ScalarValue::from(json!(*idx as i64)));
+                        payload.insert("u".to_string(), ScalarValue::from(json!(*idx as u64)));
+                    }
                     let ts = alph[6].2[idx % 14].as_u64().unwrap();
                     let eb = EventBuilder { event_type: "w".into(), context_id: if wide { format!("ctx{row:06}") } else { format!("ctx{}", idx % 5) }, timestamp: ts, event_id: EventId::from_raw(1000 + row), payload };
                     events.push(eb.build());
@@ -191,8 +200,8 @@ pub fn child(root: &str, tier: &str) -> i32 {
                 // probe literals: the alphabet, absent values, literals of another numeric kind
                 let mut lits: Vec<Value> = vals.clone();
                 match *kind {
-                    "int" => lits.extend([json!(4), json!(-2), json!(2.5), json!(-0.5), json!(1e300)]),
-                    "u64" => lits.extend([json!(3), json!(-1), json!(2.5)]),
+                    "int" => lits.extend([json!(4), json!(-2), json!(2.5), json!(-0.5), json!(1e300), json!(100), json!(299), json!(300), json!(511), json!(512)]),
+                    "u64" => lits.extend([json!(3), json!(-1), json!(2.5), json!(100), json!(299), json!(300), json!(511), json!(512)]),
                     "float" => lits.extend([json!(2), json!(-3), json!(0.25), json!(1000000)]),
                     "string" => lits.extend([json!("aaa"), json!("B"), json!("zzz"), json!("0")]),
                     "datetime" => lits.extend([json!(1699990000), json!(1700100000)]),
@@ -357,7 +366,9 @@ pub fn child(root: &str, tier: &str) -> i32 {
         // the real planner + pruners (QueryPlan -> ExecutionSteps -> ZoneCollector)
         // ---------------------------------------------------------------------------------
         let step = if tier == "quick" { 5 } else { 1 };
-        let pipe_segs: Vec<(String, Vec<Vec<usize>>)> = if wide {
+        let pipe_segs: Vec<(String, Vec<Vec<usize>>)> = if dense {
+            Vec::new()
+        } else if wide {
             segs.clone()
         } else {
             vec![
@@ -572,8 +583,18 @@ pub fn check(tier: &str) -> i32 {
     let exe = crate::explore::self_exe();
     // zones of 3 rows (every multiset), then wide zones (one value at chosen row positions)
     let widths: Vec<usize> = if tier == "quick" { vec![3, 100] } else { vec![3, 65, 72, 100, 129, 257] };
+    // the last entry (marked by usize::MAX - rows) is the dense mode: zones of 300 rows holding row numbers
+    let mut widths = widths;
+    widths.push(usize::MAX - 300);
     let outs = crate::lab::par_map(&widths, crate::lab::threads(), |_, w| {
-        std::process::Command::new(&exe).arg("c08child").arg(scratch.dir.join(format!("db{w}"))).arg(tier).env_remove("SNELDB_CONFIG").env("RAYON_NUM_THREADS", "1").env("VERIF_C08_Z", w.to_string()).output()
+        let mut c = std::process::Command::new(&exe);
+        c.arg("c08child").arg(scratch.dir.join(format!("db{w}"))).arg(tier).env_remove("SNELDB_CONFIG").env("RAYON_NUM_THREADS", "1");
+        if *w > 1_000_000 {
+            c.env("VERIF_C08_Z", (usize::MAX - *w).to_string()).env("VERIF_C08_DENSE", "1");
+        } else {
+            c.env("VERIF_C08_Z", w.to_string());
+        }
+        c.output()
     });
     let mut failing: Vec<crate::golden::Failing> = Vec::new();
     let mut v = json!({});
@@ -597,7 +618,7 @@ pub fn check(tier: &str) -> i32 {
                 return 2;
             }
         };
-        let prefix = if *w == 3 { String::new() } else { format!("zones of {w} rows: ") };
+        let prefix = if *w == 3 { String::new() } else if *w > 1_000_000 { format!("dense zones of {} rows: ", usize::MAX - *w) } else { format!("zones of {w} rows: ") };
         for f in vw["findings"].as_array().cloned().unwrap_or_default() {
             let class0 = f["class"].as_str().unwrap_or("").to_string();
             let class = format!("{prefix}{class0}");
@@ -606,7 +627,7 @@ pub fn check(tier: &str) -> i32 {
         if *w == 3 {
             v = vw;
         } else {
-            wide_cov.push(json!({"rows_per_zone": w, "probes": vw["probes"], "nontrivial": vw["nontrivial"], "structures": vw["structures"]}));
+            wide_cov.push(json!({"rows_per_zone": if *w > 1_000_000 { format!("{} (dense: integer fields hold the row number)", usize::MAX - *w) } else { w.to_string() }, "probes": vw["probes"], "nontrivial": vw["nontrivial"], "structures": vw["structures"]}));
         }
     }
     let verdict = crate::golden::judge("C08", tier, &failing);
